@@ -104,6 +104,16 @@ func (d *storeDebugger) snap(head string) {
 				sb.WriteString(" " + stVal(c.ObjectStatus))
 			case "@obj.response":
 				sb.WriteString(" " + stVal(c.ObjectResponse))
+			case "@workspace":
+				// the accounting counter `set` / `add` of a request header charges (Gen/StoreEffects.v: Set, Add)
+				sb.WriteString(" (I " + u64(uint64(c.RequestWorkspaceBytes)) + " 0)")
+			case "@fastly.error":
+				// what the built-ins listed with FastlyError in Gen/StoreEffects.v write
+				if c.FastlyError == nil {
+					sb.WriteString(" (nil)")
+				} else {
+					sb.WriteString(" " + stVal(c.FastlyError))
+				}
 			default:
 				sb.WriteString(" (undef)")
 			}
